@@ -33,6 +33,8 @@ RULE = ('serial run vs every (bin size, fetch margin, job size, pool on/off) til
         'contig-per-process, real-Pool runs per worker count, and per job file: every read-1 record with a DS tag lies in an '
         'ownership interval of the job that wrote it')
 ASSUMPTIONS = [
+    'wall-clock time is not explored; the time limit is exercised through a virtual clock that moves between segments only '
+    '(a segment that itself exceeds its limit is dropped by design and has no serial counterpart)',
     'fetch margin >= longest fragment (60 nt), as the property states; smaller margins are not generated',
     'no blacklist (the tiling path raises NotImplementedError for one)',
     'per-run identifiers (mi, ix) and the order among equal coordinates are not compared',
@@ -72,7 +74,8 @@ EXTRA_METHODS = ['qflag', 'nla_no_overhang', 'nla_taps', 'chic_taps', 'nla_trans
 
 
 def bounds(tier):
-    more = {'extra_methods': EXTRA_METHODS, 'libraries': ['main'] + LIBS, 'options': [n for n, _, _ in OPTION_LETTERS],
+    more = {'clock': 'virtual (-max_time_per_segment 60 s): +1 h before every segment, frozen inside; 3 bins per job, all bins in one job, contig-per-process',
+            'extra_methods': EXTRA_METHODS, 'libraries': ['main'] + LIBS, 'options': [n for n, _, _ in OPTION_LETTERS],
             'modes': ['tiling', 'contig-per-process'],
             'job_ownership_observed': 'first (submission order) run of every configuration'}
     if tier == 'quick':
@@ -290,6 +293,19 @@ class Session:
                 kw['use_pool'] = cfg['pool']
                 return real(**kw)
             tm.tag_multiome_multi_processing = wrapper
+        clock = None
+        if (cfg or {}).get('clock'):
+            # virtual clock (the tagger's only time source for the limit is `datetime.now` of the tagging module): time passes
+            # BETWEEN segments only (one hour before every segment starts), never inside one, so no segment comes near its limit
+            # and the output must equal the serial pass; a limit measured from anywhere outside the segment sees the hours
+            import singlecellmultiomics.universalBamTagger.tagging as tg
+            real_task, real_dt = seam(tg, 'run_tagging_task'), seam(tg, 'datetime')
+            clock = VirtualClock(real_dt)
+
+            def timed_task(*a, **kw):
+                clock.advance(3600)
+                return real_task(*a, **kw)
+            tg.run_tagging_task, tg.datetime = timed_task, clock
         if observe_jobs:
             def observed(args):
                 res = real_rtt(args)
@@ -306,6 +322,8 @@ class Session:
         finally:
             tm.tag_multiome_multi_processing = real
             tm.run_tagging_tasks = real_rtt
+            if clock is not None:
+                tg.run_tagging_task, tg.datetime = real_task, real_dt
         njobs = sch.log[0]['n'] if sch.log else None
         if exc is not None:
             return [(f'{self.method}:{tag}:exception:{type(exc).__name__}', repr(exc))], njobs
@@ -324,6 +342,26 @@ class Session:
         if opts:
             tag += ':' + opts[0].lstrip('-')
         return viols + [(f'{self.method}:{tag}:{s}', d) for s, d in diff_signature(serial, got)], njobs
+
+
+class VirtualClock:
+    """stands in for the `datetime` class in the tagging module: now() is owned by the harness"""
+
+    def __init__(self, real):
+        self.real = real
+        self.t = real(2020, 1, 1)
+        self.reads = 0
+
+    def advance(self, seconds):
+        from datetime import timedelta
+        self.t = self.t + timedelta(seconds=seconds)
+
+    def now(self, tz=None):
+        self.reads += 1
+        return self.t
+
+    def __getattr__(self, name):
+        return getattr(self.real, name)
 
 
 def without_worker_count(opts):
@@ -404,6 +442,10 @@ def option_bundles(tier):
             dest.append(dict(TILE, opts=opts, lenient_serial=True, **light))
         if 'c' in modes and (tier != 'quick' or name in JOB_LETTERS):
             dest.append(dict(CPP, opts=opts, lenient_serial=True, **light))
+    # a limit of one minute under a virtual clock which moves one hour between segments and not at all inside one
+    jobs.append(dict(TILE, opts=['-max_time_per_segment', '60'], clock=True, lenient_serial=True, **light))
+    jobs.append(dict({'b': 250, 'f': 60, 'j': 10 ** 9, 'pool': True}, opts=['-max_time_per_segment', '60'], clock=True, lenient_serial=True, **light))
+    jobs.append(dict(CPP, opts=['-max_time_per_segment', '60'], clock=True, lenient_serial=True, **light))
     # the same history of restricted / unrestricted calls as for the tiling, contig-per-process
     jobs.append(dict(CPP, history=['c2', None, 'c1', None], **light))
     out = [threads, jobs]
@@ -531,6 +573,8 @@ def _report(acc, case, viols, njobs, nrec):
             lab += ',' + ' '.join(cfg['opts']).lstrip('-')
         if cfg.get('real_pool'):
             lab += ',real-pool'
+        if cfg.get('clock'):
+            lab += ',virtual-clock'
     real_pool = bool(cfg and cfg.get('real_pool'))
     acc.case(case, transitions=nrec, nontrivial=(real_pool or ((njobs or 0) >= 3 and case['order'] is not None)),
              outcome=f"{case['method']}:{lab}:jobs={njobs}:viol={len(viols)}")
